@@ -1,5 +1,6 @@
 import DicomModel.Model.Guard
 import DicomModel.Model.Rle
+import DicomModel.Model.Bytes
 import DicomModel.Model.Pdu
 import DicomModel.Lemmas.TagText
 import DicomModel.Lemmas.Pdu
@@ -20,9 +21,10 @@ definition was totalised).  Collected here:
   loop terminates with fuel = body length (`read_pdvs_no_hang`);
 * file meta group: the `while total_bytes_read < group_length` loop ends after at most
   `group_length/8 + 1` rounds whatever the stream contains (`meta_loop_no_hang`);
-* RLE Lossless: `read_rle_header` is NOT panic-free: exact characterisation of the fragments on
-  which it panics (`rle_header_panics_iff`) and witnesses of the panics in the segment loops
-  (`rle_*_panics`) — reproduced on the real decoder by the fuzzing run (known findings);
+* RLE Lossless after repair af5f450: `read_rle_header`, `decode_frame` and `decode` never panic
+  (`rle_header_no_panic`, `rle_decode_frame_no_panic`, `rle_decode_no_panic`, models in
+  `Model/Guard.lean`); what was shipped before is kept as `…_shipped_before_fix` (exact panic set of
+  the old header reader);
 * recursion depth of `build_object`/`build_sequence` equals the nesting depth of the input, which
   is unbounded: 20 bytes of input per stack level (`nesting_depth_unbounded`) — the stack overflow is
   reproduced by the fuzzing run (known finding). Allocation before reading: `valueAlloc`.
@@ -184,9 +186,8 @@ open Guard in
 for 4 GiB -/
 theorem value_alloc_unbounded : valueAlloc 0xFFFFFFFE = 4294967294 := rfl
 
-/-! ## RLE Lossless: the real decoder is not panic-free -/
+/-! ## RLE Lossless (repaired by af5f450): no panic; what was shipped before, as witnesses -/
 
-open Rle in
 theorem rdLe32_none_iff (bs : Bytes) : rdLe32 bs = none ↔ bs.length < 4 := by
   match bs with
   | [] => simp [rdLe32]
@@ -221,17 +222,156 @@ theorem rdLe32_val_lt {bs : Bytes} (hb : IsBytes bs) {n : Nat} {r : Bytes}
     have hc := hb c (by simp); have hd := hb d (by simp)
     refine ⟨by omega, by simp [h.2], by simp⟩
 
-open Rle in
-/-- **Exactly when `read_rle_header` panics** (fragment = any byte string): it is shorter than its
-4-byte segment count, or the count is `0xFFFFFFFF` (`4·(n+1)` wraps to 0 and the slice `4..0`
-panics), or it is shorter than the `4·(n+1)` bytes the count announces. Every other fragment is read
-without panic. (PS3.5 fixes the header at 64 bytes and at most 15 segments; the decoder checks
-neither, and with a count of a few hundred million `vec![0; n]` is an allocation of gigabytes.) -/
-theorem rle_header_panics_iff (frag : Bytes) (hb : IsBytes frag) :
-    readRleHeader frag = .panic ↔
+open Guard Rle in
+/-- **`read_rle_header` (repaired) never panics**: for every fragment — any length, any contents —
+the two slices it still takes are inside the fragment, because of the 64-byte and 15-segment tests
+in front of them. -/
+theorem rle_header_no_panic (frag : Bytes) : readRleHeaderFixed frag ≠ .panic := by
+  unfold readRleHeaderFixed
+  split
+  · intro h; cases h
+  · rename_i hlen
+    cases hh : rdLe32 frag with
+    | none => exact absurd ((rdLe32_none_iff frag).mp hh) (by omega)
+    | some p =>
+      obtain ⟨n, r⟩ := p
+      simp only
+      split
+      · intro h; cases h
+      · rename_i hn
+        have h1 : ¬ frag.length < 4 * (n + 1) := by omega
+        simp only [h1, if_false]
+        obtain ⟨v, hv⟩ := rdLe32s_some n (frag.drop 4) (by simp only [List.length_drop]; omega)
+        simp [hv]
+
+open Guard Rle in
+theorem scatterFixed_np (step e : Nat) : ∀ (src : Bytes) (pos : Nat) (dst : Bytes),
+    e ≤ dst.length → scatterFixed step e pos src dst ≠ .panic ∧
+      ∀ d', scatterFixed step e pos src dst = .ok d' → d'.length = dst.length := by
+  intro src
+  induction src with
+  | nil =>
+    intro pos dst _
+    simp only [scatterFixed]
+    split
+    · exact ⟨nofun, fun d' h => by cases h; rfl⟩
+    · exact ⟨nofun, nofun⟩
+  | cons x xs ih =>
+    intro pos dst h
+    simp only [scatterFixed]
+    split
+    · exact ⟨nofun, fun d' h => by cases h; rfl⟩
+    · split
+      · have := ih (pos + step) (dst.set pos x) (by simpa using h)
+        exact ⟨this.1, fun d' hd => by rw [this.2 d' hd]; simp⟩
+      · omega
+
+open Guard Rle in
+theorem placeSegmentFixed_np (P : Params) (frag : Bytes) (offs : List Nat) (base : Nat) (dst : Bytes)
+    (sn bo : Nat) (h : base + P.frameSize ≤ dst.length) :
+    placeSegmentFixed P frag offs base dst sn bo ≠ .panic ∧
+      ∀ d', placeSegmentFixed P frag offs base dst sn bo = .ok d' → d'.length = dst.length := by
+  unfold placeSegmentFixed
+  simp only
+  split
+  · split
+    · exact ⟨nofun, nofun⟩
+    · split
+      · exact ⟨nofun, nofun⟩
+      · exact scatterFixed_np _ _ _ _ _ h
+  · exact ⟨nofun, nofun⟩
+
+open Guard Rle in
+theorem placeAllFixed_np (P : Params) (frag : Bytes) (offs : List Nat) (base : Nat) :
+    ∀ (order : List (Nat × Nat)) (dst : Bytes), base + P.frameSize ≤ dst.length →
+      placeAllFixed P frag offs base order dst ≠ .panic ∧
+        ∀ d', placeAllFixed P frag offs base order dst = .ok d' → d'.length = dst.length := by
+  intro order
+  induction order with
+  | nil => intro dst _; exact ⟨nofun, fun d' h => by cases h; rfl⟩
+  | cons p rest ih =>
+    intro dst h
+    obtain ⟨sn, bo⟩ := p
+    have hs := placeSegmentFixed_np P frag offs base dst sn bo h
+    simp only [placeAllFixed]
+    split
+    · rename_i d1 heq
+      have hl := hs.2 d1 heq
+      have := ih d1 (by omega)
+      exact ⟨this.1, fun d' hd => by rw [this.2 d' hd, hl]⟩
+    · exact ⟨nofun, nofun⟩
+    · rename_i heq; exact absurd heq hs.1
+
+open Guard Rle in
+theorem decodeFragmentIntoFixed_np (P : Params) (frag : Bytes) (base : Nat) (dst : Bytes)
+    (h : base + P.frameSize ≤ dst.length) :
+    decodeFragmentIntoFixed P frag base dst ≠ .panic ∧
+      ∀ d', decodeFragmentIntoFixed P frag base dst = .ok d' → d'.length = dst.length := by
+  unfold decodeFragmentIntoFixed
+  have hh := rle_header_no_panic frag
+  split
+  · exact placeAllFixed_np P frag _ base _ dst h
+  · exact ⟨nofun, nofun⟩
+  · rename_i heq; exact absurd heq hh
+
+open Guard Rle in
+/-- **`RleLosslessAdapter::decode_frame` (repaired) never panics**, for any image parameters, any
+list of fragments, any frame number and any prior contents of the output vector. -/
+theorem rle_decode_frame_no_panic (P : Params) (frags : List Bytes) (frame : Nat) (dst0 : Bytes) :
+    decodeFrameFixed P frags frame dst0 ≠ .panic := by
+  unfold decodeFrameFixed
+  split
+  · nofun
+  · split
+    · nofun
+    · exact (decodeFragmentIntoFixed_np P _ _ _ (by simp)).1
+
+open Guard Rle in
+theorem decodeFramesFixed_np (P : Params) (base0 : Nat) : ∀ (frags : List Bytes) (i : Nat) (dst : Bytes),
+    base0 + (i + frags.length) * P.frameSize ≤ dst.length →
+      decodeFramesFixed P base0 i frags dst ≠ .panic := by
+  intro frags
+  induction frags with
+  | nil => intro i dst _; simp [decodeFramesFixed]
+  | cons f rest ih =>
+    intro i dst h
+    have hb : base0 + i * P.frameSize + P.frameSize ≤ dst.length := by
+      simp only [List.length_cons] at h
+      have : (i + (rest.length + 1)) * P.frameSize = i * P.frameSize + P.frameSize + rest.length * P.frameSize := by
+        rw [Nat.add_mul, Nat.add_mul]; omega
+      omega
+    have hf := decodeFragmentIntoFixed_np P f (base0 + i * P.frameSize) dst hb
+    simp only [decodeFramesFixed]
+    split
+    · rename_i d1 heq
+      apply ih
+      rw [hf.2 d1 heq]
+      simp only [List.length_cons] at h
+      have : (i + 1 + rest.length) = (i + (rest.length + 1)) := by omega
+      rw [this]; exact h
+    · nofun
+    · rename_i heq; exact absurd heq hf.1
+
+open Guard Rle in
+/-- **`RleLosslessAdapter::decode` (repaired) never panics** -/
+theorem rle_decode_no_panic (P : Params) (frags : List Bytes) (dst0 : Bytes) :
+    decodeAllFixed P frags dst0 ≠ .panic := by
+  unfold decodeAllFixed
+  split
+  · nofun
+  · apply decodeFramesFixed_np
+    simp only [List.length_append, List.length_replicate, Nat.zero_add]
+    rw [Nat.mul_comm]; omega
+
+open Guard Rle in
+/-- What was shipped before the repair: exactly when the old `read_rle_header` panicked — the
+fragment is shorter than its 4-byte segment count, the count is `0xFFFFFFFF` (`4·(n+1)` wraps to 0),
+or the fragment is shorter than the `4·(n+1)` bytes the count announces. -/
+theorem rle_header_panics_iff_shipped_before_fix (frag : Bytes) (hb : IsBytes frag) :
+    readRleHeaderShipped frag = .panic ↔
       frag.length < 4 ∨ ∃ n r, rdLe32 frag = some (n, r) ∧
         (n = 4294967295 ∨ frag.length < 4 * (n + 1)) := by
-  unfold readRleHeader
+  unfold readRleHeaderShipped
   cases hh : rdLe32 frag with
   | none => simp [(rdLe32_none_iff frag).mp hh]
   | some p =>
@@ -261,30 +401,11 @@ theorem rle_header_panics_iff (frag : Bytes) (hb : IsBytes frag) :
           · exact absurd h2 hmax
           · exact absurd h2 hshort
 
-open Rle in
-/-- witnesses (each reproduced on the real decoder by the fuzzing run): an empty fragment, … -/
-theorem rle_empty_fragment_panics : readRleHeader [] = .panic := by decide
-
-open Rle in
-/-- … a fragment that announces one segment and stops: `fragment[4..8]` is out of range -/
-theorem rle_truncated_header_panics : readRleHeader [1, 0, 0, 0] = .panic := by decide
-
-open Rle in
-/-- … a well-formed header whose segment count is smaller than `samples × bytes per sample`:
-`offsets[ii + 1]` is out of bounds (here: 8-bit RGB, one segment) -/
-theorem rle_missing_segment_panics :
-    decodeFrame ⟨1, 1, 3, 8⟩ [[1, 0, 0, 0, 8, 0, 0, 0, 0, 5]] 0 [] = .panic := by
-  simp [decodeFrame, decodeFragmentInto, readRleHeader, rdLe32, rdLe32s, placeAll, segOrder,
-    placeSegment, Params.bps, Params.frameSize, Params.step, unpack, scatter, List.range,
-    List.range.loop]
-
-open Rle in
-/-- … a segment that decodes to fewer bytes than `rows × columns`: `decoded_segment[i]` is out of
-bounds (2×1 pixels, the segment holds one literal byte) -/
-theorem rle_short_segment_panics :
-    decodeFrame ⟨2, 1, 1, 8⟩ [[1, 0, 0, 0, 8, 0, 0, 0, 0, 5]] 0 [] = .panic := by
-  simp [decodeFrame, decodeFragmentInto, readRleHeader, rdLe32, rdLe32s, placeAll, segOrder,
-    placeSegment, Params.bps, Params.frameSize, Params.step, unpack, scatter, List.range,
-    List.range.loop]
+open Guard Rle in
+/-- witnesses for the shipped code: an empty fragment and one that stops after its segment count
+panicked; the repaired reader answers `Err` on both -/
+theorem rle_short_fragments_shipped_before_fix :
+    readRleHeaderShipped [] = .panic ∧ readRleHeaderShipped [1, 0, 0, 0] = .panic ∧
+    readRleHeaderFixed [] = .err ∧ readRleHeaderFixed [1, 0, 0, 0] = .err := by decide
 
 end Dicom.C05
